@@ -302,4 +302,90 @@ theorem absent_empty : Absent ({} : Ent T) := ⟨rfl, fun _ => rfl, fun _ => rfl
 theorem WInv.clearCache {e : Ent T} {cur : WVer T} (h : WInv e cur) : WInv { e with cache := [] } cur :=
   { h with cache := by intro i c hc; simp at hc }
 
+/-! ### the decidable usage predicate -/
+
+theorem absent_of_B {e : Ent T} (h : absentB e = true) : Absent e := by
+  unfold absentB at h
+  simp only [Bool.and_eq_true] at h
+  obtain ⟨⟨h1, h2⟩, h3⟩ := h
+  refine ⟨by simpa using h1, ?_, ?_⟩
+  · intro k
+    have : e.kv.wals = [] := by simpa using h2
+    simp [Scope.getWal, this]
+  · intro i
+    have : e.cache = [] := by simpa using h3
+    simp [this]
+
+theorem othersCurrent_of_B {e : Ent T} {i : Nat} (h : othersCurrentB e i = true) :
+    othersCurrent e i := by
+  unfold othersCurrentB at h
+  intro j c hj hc
+  -- the entry found by the look-up is a member of the list
+  have hmem : ∀ (l : List (Nat × WVer T)), alookup l j = some c → (j, c) ∈ l := by
+    intro l
+    induction l with
+    | nil => intro h0; simp at h0
+    | cons p t ih =>
+      obtain ⟨k, v⟩ := p
+      intro h0
+      rw [alookup_cons] at h0
+      by_cases hk : k = j
+      · simp [hk] at h0; subst hk; subst h0; exact List.mem_cons_self
+      · simp [hk] at h0; exact List.mem_cons_of_mem _ (ih h0)
+  have := List.all_eq_true.mp h (j, c) (hmem e.cache hc)
+  simp only [Bool.or_eq_true, beq_iff_eq] at this
+  rcases this with h1 | h1
+  · exact absurd h1 hj
+  · simpa using h1
+
+theorem safeRun_of_B {e : Ent T} {ops : List (Op T)} (h : safeRunB e ops = true) :
+    SafeRun e ops := by
+  induction ops generalizing e with
+  | nil => trivial
+  | cons o rest ih =>
+    simp only [safeRunB, Bool.and_eq_true] at h
+    refine ⟨?_, ih h.2⟩
+    cases o with
+    | add i inst wf disk => exact absent_of_B h.1
+    | cmd i c wf => trivial
+    | get i => trivial
+    | snap i wf => exact othersCurrent_of_B h.1
+    | restart i => trivial
+
+/-- The side condition of `update_snapshot` is exactly what is needed: on an existing entity
+(invariant `WInv`), after a successful snapshot through store object `i` every store object
+still returns the current value **iff** every other store object was current. -/
+theorem snapshot_safe_iff {e : Ent T} {cur : WVer T} (h : WInv e cur) (i : Nat) :
+    (∀ j, (getLatest (updateSnapshot e i).1 j).2 = .ok cur) ↔ othersCurrent e i := by
+  constructor
+  · intro hall j c hj hc
+    -- suppose `j`'s cache `c` still had a change set to apply
+    cases hg : e.kv.getWal c.revision with
+    | none => rfl
+    | some s =>
+      exfalso
+      have hlt : c.revision < cur.revision := by
+        rcases Nat.lt_or_ge c.revision cur.revision with h1 | h1
+        · exact h1
+        · rw [h.above c.revision h1] at hg; cases hg
+      -- after the snapshot `j` still holds `c`, and there is nothing left to apply to it
+      obtain ⟨ch, hlc, _⟩ := load_catchUp h i
+      have hj' : alookup (updateSnapshot e i).1.cache j = some c ∧
+          (updateSnapshot e i).1.kv.wals = [] := by
+        simp only [updateSnapshot]
+        rw [execOpt_eq, hlc]
+        cases ch <;>
+          simp [phProcess, phCache, phSnapshot, phFinish, alookup_ainsert, hj, hc]
+      have hres := hall j
+      simp only [getLatest] at hres
+      rw [execOpt_eq] at hres
+      have hcu : catchUp (updateSnapshot e i).1.kv (updateSnapshot e i).1.kv.fuel c = some (c, false) := by
+        unfold Scope.fuel
+        simp [catchUp, Scope.getWal, hj'.2]
+      simp [phLoad, hj'.1, phCatchUp, hcu, phProcess, phCache, phSnapshot, phFinish, Local.out] at hres
+      rw [hres] at hlt
+      omega
+  · intro hs j
+    exact (execOpt_get (execOpt_snap h i false hs) j).1
+
 end KM.ES.Wal
